@@ -48,7 +48,7 @@ type Engine struct {
 	MaxPaths     int
 	MaxForks     int
 
-	Paths, Asserts, Discharged, Trivial, Unknown, Blocked, Aborts, FreeForks int
+	Paths, Asserts, Discharged, Trivial, Unknown, Blocked, Aborts, FreeForks, PathsAsserting int
 	FuncsSeen                                                     map[string]bool
 	ModelsUsed                                                    map[string]bool
 	Assumptions                                                   map[string]bool
@@ -1785,6 +1785,9 @@ func (e *Engine) runPath(st *State) {
 		}
 		if !cont {
 			e.Paths++
+			if st.sawAssert {
+				e.PathsAsserting++
+			}
 			return
 		}
 		if st.blockedNow {
